@@ -335,6 +335,100 @@ class Env:
         return self.fixture
 
 
+class StrSub(str):
+    pass
+
+
+def plain_strings(v):
+    """A converter may hand back (part of) what it was given: compare by
+    value, not by the subclass of the argument."""
+    if type(v) is StrSub:
+        return str.__str__(v)
+    if isinstance(v, tuple):
+        return tuple(plain_strings(x) for x in v)
+    if isinstance(v, list):
+        return [plain_strings(x) for x in v]
+    if hasattr(v, "address") and hasattr(v, "family"):
+        try:
+            v.address = plain_strings(v.address)
+        except Exception:  # noqa
+            pass
+    return v
+
+
+def thread_stress(env, n_threads=4, rounds=6000):
+    """The stock converter objects are shared by everything in the process:
+    several threads convert different texts with them at the same time
+    (switch interval 1 microsecond); every result must be the thread's
+    own."""
+    import sys
+    import threading
+    res = env.ctx.res
+    names = [n for n in ("inet-address", "inet-binding-address",
+                         "inet-connection-address", "socket-address",
+                         "byte-size", "time-interval", "timedelta",
+                         "ipaddr-or-hostname", "basic-key")
+             if n in env.conv]
+    bad = []
+    lock = threading.Lock()
+
+    def work(i):
+        host = "Host%d.Example.COM" % i
+        want = {
+            "inet-address": (host.lower(), 8000 + i),
+            "inet-binding-address": (host.lower(), 8000 + i),
+            "inet-connection-address": (host.lower(), 8000 + i),
+            "byte-size": (i + 1) * 1024, "time-interval": (i + 1) * 60,
+            "ipaddr-or-hostname": host.lower(), "basic-key": host.lower(),
+        }
+        arg = {"inet-address": "%s:%d" % (host, 8000 + i),
+               "inet-binding-address": "%s:%d" % (host, 8000 + i),
+               "inet-connection-address": "%s:%d" % (host, 8000 + i),
+               "socket-address": "%s:%d" % (host, 8000 + i),
+               "byte-size": "%dKB" % (i + 1), "time-interval": "%dm" % (i + 1),
+               "timedelta": "%dd %dh" % (i + 1, i),
+               "ipaddr-or-hostname": host, "basic-key": host}
+        for r in range(rounds):
+            for n in names:
+                try:
+                    got = env.conv[n](arg[n])
+                except Exception as e:  # noqa
+                    got = "%s: %s" % (type(e).__name__, e)
+                if n == "socket-address":
+                    got = getattr(got, "address", got)
+                    w = (host.lower(), 8000 + i)
+                elif n == "timedelta":
+                    import datetime
+                    w = datetime.timedelta(days=i + 1, hours=i)
+                else:
+                    w = want[n]
+                if got != w:
+                    with lock:
+                        if len(bad) < 5:
+                            bad.append((n, arg[n], repr(w), repr(got)))
+                    return
+    old = sys.getswitchinterval()
+    sys.setswitchinterval(1e-6)
+    try:
+        ts = [threading.Thread(target=work, args=(i,))
+              for i in range(n_threads)]
+        for t in ts:
+            t.start()
+        for t in ts:
+            t.join()
+    finally:
+        sys.setswitchinterval(old)
+    res.evaluations += n_threads * rounds * len(names)
+    res.hook("conversions_under_thread_stress",
+             n_threads * rounds * len(names))
+    for n, a, w, g in bad:
+        res.violate("result-is-another-thread's",
+                    {"op": "threads", "type": n, "s": a}, w, g,
+                    detail="%d threads converting at once: %s(%r) -> %s, "
+                    "expected %s" % (n_threads, n, a, g, w),
+                    vsig="threads|%s" % n)
+
+
 def check_one(env, name, s, family):
     """Execute one (datatype, string) case and judge it."""
     res = env.ctx.res
@@ -355,7 +449,14 @@ def check_one(env, name, s, family):
         res.inconclusive_because("reference %s raised %s on %r"
                                  % (name, type(e).__name__, s))
         return
-    obs = observe(conv, s)
+    if family in ("structured", "cross") and res.evaluations % 4 == 1 and \
+            name not in SLOW_TYPES and name != "null":
+        # the text as an instance of a str subclass (what a templating or
+        # i18n layer hands on): a string like any other
+        res.count("str_subclass_arguments")
+        obs = plain_strings(observe(conv, StrSub(s)))
+    else:
+        obs = observe(conv, s)
     if name == "locale":
         after = env.locale.setlocale(env.locale.LC_ALL)
         if after != before:
@@ -872,6 +973,8 @@ def run_shard(ctx):
                     res.count("cross_talk_calls")
             res.hook("cross_talk_strings")
         platform_default_hosts(ctx)
+        if ctx.shard % 4 == 0:
+            thread_stress(env)
     finally:
         env.locale.setlocale(env.locale.LC_ALL, prev_locale)
     res.info["bounds"] = {
@@ -985,6 +1088,8 @@ def replay(ctx, case):
         return          # Env() re-ran the registry checks
     if case.get("op") == "platform":
         return platform_default_hosts(ctx, only=case["platform"])
+    if case.get("op") == "threads":
+        return thread_stress(env)
     prev = env.locale.setlocale(env.locale.LC_ALL)
     try:
         check_one(env, case["type"], case["s"], "replay")
